@@ -18,7 +18,8 @@ COQ_PROPS = ['Properties_C05']
 TRANSLATORS = ['gen_cpctables']
 EXTRA_OBLIGATIONS = {'Properties_C05': 142}   # finite vm_compute checks on the translated tables (coq/CpcCodecTables.v)
 RULE = ('operation scripts over cpc_sketch / cpc_union registers, lg_k 4..7 (quick) / 4..10 (thorough): (a) streams of real items '
-        '(uint64 and strings, MurmurHash3 modelled in Coq and mirrored in the generator to aim the probes) crossing the flavor '
+        '(every update overload: all integer widths incl. sign-extension edges, double/float incl. -0.0, NaN payloads, widening, strings incl. empty, raw bytes; '
+        'canonicalisation = coq/Canon.v, MurmurHash3 modelled in Coq; both mirrored in the generator to aim the probes) crossing the flavor '
         'boundaries 3k/32, k/2, 27k/8 and the first window shifts; (b) raw row_col streams (private row_col_update) of several shapes '
         '(natural geometric columns following the window, column-by-column fill through all 56 window shifts up to the refused 57th, '
         'late-zone-heavy, duplicate-heavy, early-zone holes filled later) with light dumps at every boundary +-1 and full dumps '
@@ -78,7 +79,8 @@ class Sim:
         if rc in self.set: return False
         self.set.add(rc); self.colcount[rc & 63] += 1; return True
     def item_rc(self, it):
-        data = bytes(it[1:]) if it[0] == 2 else (it[1] & M64).to_bytes(8, 'little')
+        data = canon_bytes(it)
+        if data is None: return None
         h0, h1 = murmur(data, self.seed)
         return row_col(h0, h1, self.lgk)
     def surprises(self, off):
@@ -142,22 +144,80 @@ def geometric(rng):
     while c < 63 and rng.random() < 0.5: c += 1
     return c
 
+def _sext(v, bits):
+    v &= (1 << bits) - 1
+    return (v | (M64 ^ ((1 << bits) - 1))) if v >> (bits - 1) else v
+
+def _canon_double(b):
+    b &= M64
+    if b & 0x7fffffffffffffff == 0: return 0
+    if (b >> 52) & 0x7ff == 0x7ff and b & ((1 << 52) - 1): return 0x7ff8000000000000
+    return b
+
+def canon_bytes(it):
+    """the bytes the library hashes for update(<type>) (mirror of coq/Canon.v canon_input); None = ignored"""
+    import struct
+    kind = it[0]; v = it[1] if len(it) > 1 else 0
+    if kind in (0, 1): x = v & M64
+    elif kind in (2, 3): x = _sext(v, 32)
+    elif kind in (4, 5): x = _sext(v, 16)
+    elif kind in (6, 7): x = _sext(v, 8)
+    elif kind == 8: x = _canon_double(v)
+    elif kind == 9:
+        f = struct.unpack('<f', struct.pack('<I', v & 0xffffffff))[0]
+        x = _canon_double(struct.unpack('<Q', struct.pack('<d', f))[0])
+    elif kind == 10:
+        return bytes(b & 255 for b in it[1:]) if len(it) > 1 else None
+    else:
+        return bytes(b & 255 for b in it[1:])
+    return x.to_bytes(8, 'little')
+
+def dbits(x):
+    import struct
+    return struct.unpack('<Q', struct.pack('<d', x))[0]
+def fbits(x):
+    import struct
+    return struct.unpack('<I', struct.pack('<f', x))[0]
+
+EDGE_ITEMS = [[8, 0x8000000000000000], [8, 0], [9, 0x80000000], [9, 0], [0, 0], [1, 0], [3, 0], [7, 0],          # one input: 0 / -0.0 / 0.0f
+              [8, 0x7ff8000000000000], [8, 0xfff8000000000001], [8, 0x7ff0000000000001], [9, 0x7fc00000], [9, 0xffc00001],  # one input: NaN
+              [8, 0x7ff0000000000000], [9, 0x7f800000], [8, 0xfff0000000000000], [9, 0xff800000],                  # inf
+              [8, 0x3ff0000000000000], [9, 0x3f800000], [8, 0x3fb999999999999a], [9, 0x3dcccccd], [8, 0x3fb99999a0000000],  # 1.0 = 1.0f; 0.1 <> 0.1f
+              [8, 1], [9, 1], [8, 0x36a0000000000000], [9, 0x007fffff], [9, 0x00800000],                         # subnormals widen exactly
+              [2, 0xffffffff], [3, -1], [1, -1], [0, M64], [4, 0xffff], [5, -1], [6, 0xff], [7, -1],                # -1 in every width = one input
+              [2, 0x80000000], [3, -0x80000000], [1, -0x80000000], [0, 0x80000000], [0, 0xffffffff80000000],        # sign extension of uint32
+              [4, 0x8000], [5, -0x8000], [6, 0x80], [7, -0x80], [2, 0x7fffffff], [4, 0x7fff], [6, 0x7f],
+              [10], [10, 0], [11], [11, 0], [10, 97], [11, 97], [11, 1, 0, 0, 0, 0, 0, 0, 0], [0, 1],               # empty string ignored; "\0"; raw = uint64 bytes
+              [10] + list(range(1, 17)), [10] + list(range(1, 18)), [10] + list(range(1, 9)), [10] + list(range(1, 10))]
+
 def item(rng, i, style):
     if style == 0: return [0, i]
     if style == 1: return [1, -i - 1]
     if style == 2: return [0, (i * 0x9e3779b97f4a7c15) & M64]
-    s = ('key-%d' % i).encode() * (1 + i % 3)
-    return [2] + list(s)
+    if style == 3:
+        s = ('key-%d' % i).encode() * (1 + i % 3)
+        return [10] + list(s)
+    # mixed types: every update overload, values that collide across types when canonicalisation is right
+    k = rng.choice([2, 3, 4, 5, 6, 7, 8, 8, 9, 11])
+    if k in (2, 3): return [k, rng.choice([i, -i, i | 0x80000000, 0xffffffff - i])]
+    if k in (4, 5): return [k, rng.choice([i, -i, (i & 0x7fff) | 0x8000])]
+    if k in (6, 7): return [k, rng.choice([i & 0xff, -(i & 0x7f), 0x80 | (i & 0x7f)])]
+    if k == 8: return [8, rng.choice([dbits(float(i)), dbits(-float(i)), dbits(i * 0.1), 0x8000000000000000, 0x7ff8000000000000 | (i & 0xffff), dbits(float(i)) ])]
+    if k == 9: return [9, rng.choice([fbits(float(i % 100000)), fbits(-float(i % 1000)), fbits((i % 1000) * 0.5), 0x80000000, 0x7fc00000 | (i & 0xff)])]
+    n = rng.choice([1, 7, 8, 9, 16, 17])
+    return [11] + list(((i * 0x9e3779b97f4a7c15) & ((1 << (8 * n)) - 1)).to_bytes(n, 'little'))
 
 def gen_stream(rng, b, lgk, n, seed=9001, full_budget=30):
     r, sim = b.new_sketch(lgk, seed)
     bset = sim.boundaries(); fb = [full_budget]
-    style = rng.randrange(4); base = rng.randrange(1 << 20)
+    style = rng.randrange(5); base = rng.randrange(1 << 20)
+    if style == 4: b.tags.add('all-update-overloads')
     for i in range(n):
         it = item(rng, base + (i if rng.random() < 0.9 else rng.randrange(i + 1)), style)
         rc = sim.item_rc(it)
+        if rc is None: b.ops.append([2, r] + it); continue
         r = b.feed(r, sim, [2, r] + it, rc, bset, fb)
-    if rng.random() < 0.2: b.ops.append([2, r, 2])      # empty string: ignored
+    if rng.random() < 0.2: b.ops.append([2, r, 10])      # empty string: ignored
     b.probe(r, sim, True)
     return r, sim
 
@@ -257,7 +317,7 @@ def gen_union(rng, b, lgs):
         if pi == 0:
             # the result keeps working: update it, round-trip it
             for i in range(rng.choice([0, 5, 40])):
-                b.ops.append([2, res, 0, rng.randrange(1 << 30)])
+                b.ops.append([2, res, rng.choice([0, 0, 3, 8]), rng.randrange(1 << 30)])
             r2 = b.reg(); b.ops.append([6, res, r2]); b.ops.append([5, r2]); b.ops.append([5, res])
             if rng.random() < 0.3:
                 # feed a result into another union
@@ -284,6 +344,19 @@ def gen(rng, tier):
             n = min(n, 2500 if quick else 7000)
             gen_stream(rng, b, lgk, n, seed=rng.choice([9001, 9001, 0, 77]), full_budget=(30 if lgk <= 8 else 8))
             add('items', b)
+    # (a') input canonicalisation: every update overload with the edge values; the coupon count is probed after each item
+    for lgk in ([5, 7] if quick else [4, 5, 7, 10]):
+        b = Builder(rng)
+        r, sim = b.new_sketch(lgk, rng.choice([9001, 123]))
+        order = list(EDGE_ITEMS); rng.shuffle(order)
+        for it in order + [rng.choice(EDGE_ITEMS) for _ in range(20)]:
+            b.ops.append([2, r] + it)
+            rc = sim.item_rc(it)
+            if rc is not None: sim.add(rc)
+            b.ops.append([4, r])
+        b.probe(r, sim, True)
+        b.tags.add('canonicalisation')
+        add('canon', b)
     # (b) raw coupons
     for lgk in lgs:
         k = 1 << lgk
